@@ -117,7 +117,7 @@ def generate(seed, h, tier):
                 if fr.chance(0.4):
                     # the very first table read of the process (the country head-count table) torn: what a
                     # process-wide cache filled before validation would keep
-                    faults[str(ji)] = [{"seam": "read", "at": 0, "kind": "truncated"}]
+                    faults[str(ji)] = [{"seam": "read", "name": "FAOSTAT_head_and_slaughter.csv", "nth": 0, "kind": "truncated"}]
     return {"h": h, "cells": cells, "faults": faults}
 
 
